@@ -47,6 +47,18 @@ def current_log() -> list[list[str]]:
     return c.log if c is not None else _lock_free_records
 
 
+def reference_process_state() -> None:
+    """Called first in every reference computation (forked from a run that may have changed
+    process state on purpose): default logging levels, default warning filters."""
+    import warnings
+
+    install_log_sink()
+    logging.disable(logging.NOTSET)
+    logging.getLogger().setLevel(logging.WARNING)
+    logging.getLogger("chartparse").setLevel(logging.NOTSET)
+    warnings.resetwarnings()
+
+
 def enable_debug_logging() -> None:
     """The application has switched debug logging on for everything (root level DEBUG).  The sink
     keeps recording reports only (WARNING and above), so this changes what the library's own
